@@ -39,6 +39,7 @@ COND_CAP = 1000
 # iterations; the largest outer count observed on a converging run is ≈ 40): see `limits()`
 ALM_ITER = 100
 FIRST_ORDER = ('panoc-noop', 'zerofpr-noop', 'fista')
+QN_LIMIT = 50000
 G = {'cert': {}, 'bound_ops': [], 'stats': {}, 'lean_calls': 0}
 
 
@@ -291,7 +292,7 @@ def limits(stack):
     default; they need a few hundred).  First-order stacks without curvature information (plain
     proximal gradient `*-noop`, FISTA): 1 000 000 — their iteration count is proportional to the
     condition number of the augmented Lagrangian (≤ 10³ · (1 + penalty·‖A‖²/λmax))."""
-    return 1000000 if stack in FIRST_ORDER else 50000
+    return 1000000 if stack in FIRST_ORDER else QN_LIMIT
 
 
 def instance_ops(p, pid, stacks, mode, tol, dtol):
